@@ -14,6 +14,8 @@ class Naming(object):
         self.scheme = scheme
 
     def level(self, l):
+        if self.scheme == 'slashed':
+            return f'lvl{l}'
         if self.scheme == 'prefix':
             return 'lv' + 'x' * l           # every level name is a prefix of the names of the finer levels
         if self.scheme == 'quoted':
@@ -25,6 +27,8 @@ class Naming(object):
         return 'abcdefghij'[l]
 
     def node(self, l, n):
+        if self.scheme == 'slashed':
+            return f'L{l}/{n} IT x'         # legal labels with a slash and spaces ("L2/3 IT")
         if self.scheme == 'prefix':
             return f'p{l}n{n}'
         if self.scheme == 'quoted':
